@@ -98,6 +98,8 @@ def shape_seeds() -> dict:
     v("enc_iv16_order", kind="audio", timescale=48000, durations=[2048, 2048], encrypted=True, iv_size=16,
       traf_order="trun,senc,piff,saiz,saio", saio_version=1, saiz_default=False, subsamples=True)
     v("enc_moof_pssh", encrypted=True, moof_pssh=True, traf_order="senc_first")
+    # one stored segment 200 times the nominal one (event-rate caps must use the real duration of the segment)
+    v("long_tail", timescale=240, durations=[960, 960, 192000], samples_per_segment=[4, 4, 4])
     # payload larger than the reader's cache window (buffersize 16384 x max_buffers 30) and a file exactly at it
     window = 16384 * 30
     v("over_window", durations=[2000, 2000], payload_bytes=[window + 4096, 9000])
@@ -461,7 +463,7 @@ class Uploader:
         del c16_http._LAST_EXC[:]
         old = c16_http.arm(c16_http.TIME_LIMIT)
         t0 = time.perf_counter()
-        js = text = None
+        js = text = emsg = None
         try:
             import contextlib
             with contextlib.redirect_stdout(c16_http._DEVNULL):
@@ -471,6 +473,14 @@ class Uploader:
                 js = r.get_json(silent=True)
             elif label == "live-patch" and status == 200:
                 text = r.get_data(as_text=True)
+            elif label.startswith("events-") and status == 200:
+                body, pos, emsg = r.get_data(), 0, 0
+                while pos + 8 <= len(body):          # top-level boxes of the served segment
+                    size = int.from_bytes(body[pos:pos + 4], "big")
+                    emsg += body[pos + 4:pos + 8] == b"emsg"
+                    if size < 8:
+                        break
+                    pos += size
             r.close()
         except c16_http.Timeout:
             status = 0
@@ -481,7 +491,7 @@ class Uploader:
             c16_http.disarm(old)
         exc = c16_http._LAST_EXC[-1] if c16_http._LAST_EXC else None
         return {"step": label, "status": status, "seconds": time.perf_counter() - t0, "exc": exc, "json": js,
-                "text": text}
+                "text": text, "emsg": emsg}
 
     def inspect(self, data: bytes) -> list:
         """POST /media/inspect.  The view is an `async def`; without Flask's optional
@@ -572,6 +582,14 @@ class Uploader:
             steps.append(self._do("patch", "GET", u.path + ("?" + u.query if u.query else "")))
         steps.append(self._do("init", "GET", f"/dash/vod/c16up/{name}/init.m4v"))
         steps.append(self._do("media1", "GET", f"/dash/vod/c16up/{name}/1.m4v"))
+        # in-band events at the highest rate on the first and the LAST stored segment (segments of unequal length:
+        # a cap on events per segment has to hold for the real duration of the addressed segment)
+        with self.app.ctx() as m:
+            mf = m.MediaFile.get(name=name)
+            nseg = mf.representation.num_media_segments if (mf is not None and mf.representation is not None) else 0
+        for k in sorted({1, nseg} - {0}):
+            steps.append(self._do(f"events-{'last' if k == nseg else 'first'}", "GET", f"/dash/vod/c16up/{name}/{k}.m4v",
+                                  query_string={"events": "ping", "ping__interval": "1"}))
         steps.append(self._do("edit-page", "GET", f"/stream/{self.spk}/{mfid}/edit"))
         d = self._do("delete", "DELETE", f"/stream/{self.spk}/{mfid}",
                      query_string={"ajax": "1", "csrf_token": self.token("files")})
@@ -604,7 +622,13 @@ class Uploader:
         return steps
 
 
+MAX_EVENTS_PER_SEGMENT = 10000      # the cap the service states for in-band events of one media segment
+
+
 def endpoint_violation(step: dict) -> str | None:
+    if (step.get("emsg") or 0) > MAX_EVENTS_PER_SEGMENT:
+        return (f"{step['step']}: the served segment carries {step['emsg']} emsg boxes - more than the cap of "
+                f"{MAX_EVENTS_PER_SEGMENT} events per segment (expected: 400, or a bounded response)")
     if step["status"] == 0:
         return f"{step['step']}: no answer within {c16_http.TIME_LIMIT:.0f} s"
     if step["status"] == c16_http.CLIENT_ERROR:
